@@ -34,12 +34,14 @@ fn plan(f: &Fault, total_calls: usize) -> FaultPlan {
         },
         kind: [io::ErrorKind::BrokenPipe, io::ErrorKind::WouldBlock, io::ErrorKind::Other, io::ErrorKind::Interrupted, io::ErrorKind::TimedOut][f.kind as usize % 5],
         // kinds 5.. are errors as the operating system reports them: EIO, EPIPE, ENOSPC, EAGAIN
-        os_code: [5, 32, 28, 11].get((f.kind as usize % 9).wrapping_sub(5)).copied(),
+        os_code: [5, 32, 28, 11].get((f.kind as usize % 11).wrapping_sub(5)).copied(),
+        // kinds 9 and 10: an error that is nothing but its kind (no message, no inner error)
+        bare: f.kind % 11 >= 9,
     }
 }
 
 fn fault_strategy() -> BoxedStrategy<Fault> {
-    (any::<u16>(), 0u8..4, 0u8..9).prop_map(|(sel, mode, kind)| Fault { sel, mode, kind }).boxed()
+    (any::<u16>(), 0u8..4, 0u8..11).prop_map(|(sel, mode, kind)| Fault { sel, mode, kind }).boxed()
 }
 
 type Getters = (u64, Option<u64>, String, String, bool);
@@ -125,6 +127,7 @@ fn run_single(c: &SingleCase) -> CaseResult {
     let mut v = Verdict::default();
     v.nontrivial = !struck.is_empty();
     v.label_if(v.nontrivial && p.os_code.is_some(), "error_from_the_operating_system");
+    v.label_if(v.nontrivial && p.bare && p.os_code.is_none(), "error_without_a_payload");
     v.label_if(struck.len() >= 2 && p.mode == FaultMode::Pair, "two_calls_in_a_row_failed");
     for s in struck {
         v.label(s);
@@ -205,6 +208,31 @@ fn multi_run(c: &MultiCase, fault: Option<FaultPlan>) -> Result<MultiTrace, Fail
                 }
                 tr.struck.push("recovered_and_redrawn");
             }
+            // ... and members whose last handle is gone are retired as usual: once they have reached the head
+            // of the list they leave it at the next paint, so after clear() and another tick nothing of them
+            // is painted again (members that are still listed behind a live bar may be)
+            if let Some(mp) = it.mp.as_ref() {
+                let cleared = catch(|| mp.clear()).map_err(|p| Fail::new("panic", format!("clear() after the terminal recovered panicked ({fault:?}): {p}")))?;
+                ensure!(cleared.is_ok(), "error_invented", "clear() on the recovered terminal returned {cleared:?} ({fault:?})");
+                clock::advance(Duration::from_millis(5));
+                catch(|| h.pb.tick()).map_err(|p| Fail::new("panic", format!("tick after the terminal recovered panicked ({fault:?}): {p}")))?;
+                let listed: Vec<usize> = it.model.entries.iter().skip_while(|e| e.zombie).map(|e| e.tag).collect();
+                if let Ok(lines) = it.vt.last_frame_lines() {
+                    for l in &lines {
+                        let tag = l.strip_prefix('B').and_then(|r| r.split(':').next()).and_then(|t| t.parse::<usize>().ok());
+                        if let Some(tag) = tag {
+                            ensure!(
+                                listed.contains(&tag),
+                                "dropped_member_not_retired",
+                                "after {fired_total} failed terminal call(s) ({fault:?}), recovery, clear() and a tick of B{}, the frame still paints B{tag}, whose last handle was dropped and which had reached the head of the list (frame {lines:?}); ops {:?}",
+                                h.tag,
+                                c.ops
+                            );
+                        }
+                    }
+                    tr.struck.push("retired_members_checked");
+                }
+            }
         }
         it.vt.set_fault(fault.map(|f| FaultPlan { at: usize::MAX, ..f }));
     }
@@ -232,6 +260,7 @@ fn run_multi(c: &MultiFaultCase) -> CaseResult {
     let mut v = Verdict::default();
     v.nontrivial = !faulty.struck.is_empty();
     v.label_if(v.nontrivial && p.os_code.is_some(), "error_from_the_operating_system");
+    v.label_if(v.nontrivial && p.bare && p.os_code.is_none(), "error_without_a_payload");
     v.label_if(faulty.struck.len() >= 2 && p.mode == FaultMode::Pair, "two_calls_in_a_row_failed");
     for s in faulty.struck {
         v.label(s);
@@ -240,7 +269,7 @@ fn run_multi(c: &MultiFaultCase) -> CaseResult {
 }
 
 fn decode_fault(u: &mut FuzzInput) -> Fault {
-    Fault { sel: u.u16(), mode: u.n(3) as u8, kind: u.n(8) as u8 }
+    Fault { sel: u.u16(), mode: u.n(3) as u8, kind: u.n(10) as u8 }
 }
 
 fn decode_c18_single(u: &mut FuzzInput) -> SingleCase {
@@ -296,7 +325,7 @@ fn run_long(c: &LongCase) -> CaseResult {
     };
     let (pb, sib) = (Guarded::new(pb), Guarded::new(sib));
     let kind = [io::ErrorKind::BrokenPipe, io::ErrorKind::WouldBlock, io::ErrorKind::Other, io::ErrorKind::Interrupted, io::ErrorKind::TimedOut][c.kind as usize % 5];
-    vt.set_fault(Some(FaultPlan { at: c.good_calls as usize, mode: FaultMode::AllLater, kind, os_code: None }));
+    vt.set_fault(Some(FaultPlan { at: c.good_calls as usize, mode: FaultMode::AllLater, kind, os_code: None, bare: c.kind % 3 == 2 }));
     let mut pos = 0u64;
     for r in 0..c.rounds {
         clock::advance(Duration::from_millis(c.step_ms as u64));
@@ -368,7 +397,7 @@ fn run_ticker_fault(c: &TickerFault) -> CaseResult {
     let kinds = [io::ErrorKind::BrokenPipe, io::ErrorKind::WouldBlock, io::ErrorKind::Other, io::ErrorKind::Interrupted, io::ErrorKind::TimedOut];
     // (one case in four: an outage - every call fails - that lasts for 300 ticks)
     let outage = c.mode % 4 == 3;
-    vt.set_fault(Some(FaultPlan { at, mode: if outage { FaultMode::AllLater } else if c.mode % 2 == 0 { FaultMode::Once } else { FaultMode::EverySecond }, kind: kinds[c.kind as usize % kinds.len()], os_code: if c.kind % 7 == 6 { Some(5) } else { None } }));
+    vt.set_fault(Some(FaultPlan { at, mode: if outage { FaultMode::AllLater } else if c.mode % 2 == 0 { FaultMode::Once } else { FaultMode::EverySecond }, kind: kinds[c.kind as usize % kinds.len()], os_code: if c.kind % 7 == 6 { Some(5) } else { None }, bare: c.kind % 7 == 5 }));
     let interval = Duration::from_millis(1 + c.interval_ms as u64 % 4);
     let r = catch(|| pb.enable_steady_tick(interval));
     r.map_err(|p| Fail::new("panic", format!("enable_steady_tick panicked: {p}")))?;
@@ -423,7 +452,7 @@ pub fn property() -> Property {
         id: "C18",
         level: "fault_enumeration",
         assumptions: &[
-            "faults are injected at the TermLike boundary: the k-th fallible terminal call (moves, writes, clear, flush) returns an io::Error (BrokenPipe / WouldBlock / Other / Interrupted / TimedOut, or one built from the raw OS codes EIO / EPIPE / ENOSPC / EAGAIN), once, from then on, every second call, or the k-th and the call after it",
+            "faults are injected at the TermLike boundary: the k-th fallible terminal call (moves, writes, clear, flush) returns an io::Error (BrokenPipe / WouldBlock / Other / Interrupted / TimedOut, one built from the raw OS codes EIO / EPIPE / ENOSPC / EAGAIN, or one that is nothing but its kind), once, from then on, every second call, or the k-th and the call after it",
             "k is drawn uniformly over the calls of the fault-free run of the same history (generated, not exhaustive; the thorough tier raises the count)",
             "logical state is compared with a fault-free twin run of the same history",
         ],
@@ -435,7 +464,7 @@ pub fn property() -> Property {
                 cases: |t| t.pick(4_000, 800_000),
                 run: run_single,
                 signature: no_signature,
-                essential: &["set_tab_width", "suspend", "println", "finish", "draw", "drop", "recovered_and_redrawn", "error_from_the_operating_system", "two_calls_in_a_row_failed"],
+                essential: &["set_tab_width", "suspend", "println", "finish", "draw", "drop", "recovered_and_redrawn", "error_from_the_operating_system", "error_without_a_payload", "two_calls_in_a_row_failed"],
                 workers: w,
                 decode: Some(decode_c18_single),
             }),
@@ -488,7 +517,7 @@ pub fn property() -> Property {
                 cases: |t| t.pick(3_000, 600_000),
                 run: run_multi,
                 signature: no_signature,
-                essential: &["set_tab_width", "suspend", "println", "clear", "finish", "draw", "drop", "set_draw_target", "error_from_the_operating_system", "two_calls_in_a_row_failed"],
+                essential: &["set_tab_width", "suspend", "println", "clear", "finish", "draw", "drop", "set_draw_target", "error_from_the_operating_system", "error_without_a_payload", "two_calls_in_a_row_failed"],
                 workers: w,
                 decode: Some(decode_c18_multi),
             }),
